@@ -81,7 +81,15 @@ def rule_index(rep, d, fns):
                                  d.text(idx)[:60], iv[0], iv[1], ext))
 
 
-def rule_alpha(rep, d, dec, enc):
+class _Multi(dict):
+    """several function nodes presented as one (the decoder plus the helpers/lambdas it was split into)"""
+
+
+def rule_alpha(rep, d, dec, enc, helpers=()):
+    if helpers:
+        merged = _Multi(dec)
+        merged["inner"] = list(dec.get("inner", [])) + [h for h in helpers]
+        dec = merged
     rep.rule("C13.alpha", "the literal that builds the decode table and the literals indexed by the encoder are the RFC 4648 standard "
                           "alphabet; the pad character is '='; the decode table is filled with a sentinel outside 0..63, entry "
                           "alphabet[i] is set to i for exactly i = 0..63, and the decoder tests against that same sentinel")
@@ -115,10 +123,12 @@ def rule_alpha(rep, d, dec, enc):
         rep.violates("C13.alpha", enc["name"], "pads to a multiple of 4", where=d.where(enc), detail="no `% 4` padding condition found: " + str([ir.show(m) for m in mods]))
     # decode table construction
     fills = []
+    seen_fill = set()
     for n in ir.walk_expr(dec):
-        if n.get("kind") == "CXXMemberCallExpr":
+        if n.get("kind") == "CXXMemberCallExpr" and n.get("id") not in seen_fill:
             t = ir.sx(n)
             if t[0] == "call" and t[1][0] == "mem" and t[1][2] == "fill" and len(t) == 3:
+                seen_fill.add(n.get("id"))
                 fills.append((n, t[2]))
     sentinel = None
     if len(fills) == 1:
@@ -128,10 +138,18 @@ def rule_alpha(rep, d, dec, enc):
     if sentinel is None:
         rep.inconclusive("C13.alpha", dec["name"], "table fill", detail="cannot find the single T.fill(<constant>)")
         return None
+    # the element type must represent the sentinel on every target: plain `char` is unsigned on ARM/PowerPC or with -funsigned-char
+    obj = ir.ekids(ir.strip(ir.ekids(fills[0][0])[0]))
+    elem = re.search(r"std::array<([^,]+),", ir.qtype(obj[0]) if obj else "")
+    elem_t = elem.group(1).strip() if elem else "?"
     if 0 <= sentinel <= 63:
         rep.violates("C13.alpha", dec["name"], "table fill", where=d.where(fills[0][0]), detail="sentinel %d is a valid sextet" % sentinel)
+    elif sentinel < 0 and elem_t in ("char", "const char"):
+        rep.violates("C13.alpha", dec["name"], "table fill", where=d.where(fills[0][0]),
+                     detail="the table stores the sentinel %d in elements of plain `char`, whose signedness is implementation-defined: where char is unsigned the entry reads back "
+                            "as %d and never equals the sentinel, so decoding does not stop at the first invalid character" % (sentinel, sentinel + 256))
     else:
-        rep.holds("C13.alpha", dec["name"], "table fill", where=d.where(fills[0][0]), detail="sentinel %d" % sentinel)
+        rep.holds("C13.alpha", dec["name"], "table fill", where=d.where(fills[0][0]), detail="sentinel %d in elements of type %s" % (sentinel, elem_t))
     # builder loop
     built = False
     for n in ir.walk_expr(dec):
@@ -341,6 +359,75 @@ def rule_acc(rep, d, dec, enc):
                              detail="counter is tested with %s, the scheme needs %s" % (sorted(c["emit_cmp"]), sorted(want_cmp)))
 
 
+def rule_input(rep, d, fns):
+    """subscripts of the input string: the index must be provably inside [0, size()) from the conditions that dominate it"""
+    from .. import flow, linear
+    from ..linear import Lin
+    rep.rule("C13.input", "the input string is read through the range-for only, or through subscripts whose index is proven to lie in [0, input.size()) by the "
+                          "conditions that dominate the access (an unsigned `len - 1` needs len >= 1)")
+    for fn in fns:
+        pnames = {p.get("name") for p in ir.params(fn) if "basic_string" in ir.qtype(p) or "string" in ir.wtype(p)}
+        subs = []
+        for n in ir.walk_expr(fn):
+            if n.get("kind") == "CXXOperatorCallExpr":
+                t = ir.sx(n)
+                if t[0] == "index" and t[1][0] == "ref" and t[1][1] in pnames:
+                    subs.append(n)
+            if n.get("kind") == "CXXMemberCallExpr":
+                t = ir.sx(n)
+                if t[0] == "call" and t[1][0] == "mem" and t[1][2] in ("at", "front", "back") and t[1][1][0] == "ref" and t[1][1][1] in pnames:
+                    subs.append(n)
+        if not subs:
+            rep.holds("C13.input", fn["name"], "input access", where=d.where(fn), detail="no subscript of the input: it is traversed by the range-for only", nontrivial=False)
+            continue
+        paths = flow.function_paths(fn, with_ctor_inits=False, events=lambda x: x.get("kind") == "CXXOperatorCallExpr")
+        linit = {}
+        for v in ir.walk_expr(fn):
+            if v.get("kind") == "VarDecl" and ir.ekids(v):
+                linit[v.get("name")] = ir.sx(ir.ekids(v)[-1])
+
+        def symmap(t):
+            if t[0] == "ref" and t[1] not in pnames:
+                return "v:" + t[1]
+            if t[0] == "call" and t[1][0] == "mem" and t[1][2] in ("size", "length") and t[1][1][0] == "ref" and t[1][1][1] in pnames:
+                return "S"
+            return None
+        verdict = {}
+        for path in paths:
+            for i, st in enumerate(path):
+                if st[0] != "ev" or st[1] not in subs:
+                    continue
+                n = st[1]
+                t = ir.sx(n)
+                if t[0] != "index":
+                    verdict[id(n)] = (n, False, "element access `%s` without an index proof" % d.text(n)[:40])
+                    continue
+                idx = linear.lin(t[2], symmap)
+                facts = []
+                for st2 in path[:i]:
+                    if st2[0] == "cond":
+                        c = ir.sx(st2[1])
+                        if c[0] == "bin" and c[1] in linear.NEG:
+                            op = c[1] if st2[2] else linear.NEG[c[1]]
+                            a, b = linear.lin(c[2], symmap), linear.lin(c[3], symmap)
+                            if a is not None and b is not None:
+                                facts += linear.atom_facts(op, a, b)
+                # locals initialised from input.size() are <= S at that point only if never incremented: use as upper bound fact
+                for nm, init in linit.items():
+                    li = linear.lin(init, symmap)
+                    if li is not None and li == Lin({"S": 1}):
+                        facts.append(Lin({"S": 1, "v:" + nm: -1}))
+                ok = idx is not None and linear.entails(facts, idx, ()) and linear.entails(facts, Lin({"S": 1, "": -1}) - idx, ())
+                prev = verdict.get(id(n), (n, True, ""))
+                verdict[id(n)] = (n, prev[1] and ok, "" if ok else "the index `%s` is not provably inside [0, size()) on a path reaching `%s`: for an empty (or all-padding) input "
+                                                                   "an unsigned `len - 1` wraps and the read is out of bounds" % (ir.show(t[2]), d.text(n)[:40]))
+        for n, ok, det in verdict.values():
+            if ok:
+                rep.holds("C13.input", fn["name"], "subscript `%s`" % d.text(n)[:40], where=d.where(n))
+            else:
+                rep.violates("C13.input", fn["name"], "subscript `%s`" % d.text(n)[:40], where=d.where(n), detail=det)
+
+
 def run(tier):
     rep = Report("C13", tier, "other",
                  "Structural necessary conditions decided on the resolved AST of base64decode/base64encode: table-index intervals "
@@ -352,13 +439,15 @@ def run(tier):
     d = cj.dump(DRIVER, "xtl::")
     rep.cmd(d.cmd)
     fns = {f["name"]: f for f in ir.functions(d) if f.get("name") in ("base64decode", "base64encode")}
+    helpers = [f for f in ir.functions(d) if f.get("name") not in ("base64decode", "base64encode") and "xbase64.hpp" in str((f.get("loc") or {}).get("file"))]
     if set(fns) != {"base64decode", "base64encode"}:
         raise cj.AnalysisBroken("anchor functions base64decode/base64encode not found (found %s)" % sorted(fns))
     dec, enc = fns["base64decode"], fns["base64encode"]
-    rule_index(rep, d, [dec, enc])
-    sentinel = rule_alpha(rep, d, dec, enc)
+    rule_index(rep, d, [dec, enc] + helpers)
+    sentinel = rule_alpha(rep, d, dec, enc, helpers)
     if sentinel is not None:
         rule_stop(rep, d, dec, sentinel)
     rule_acc(rep, d, dec, enc)
+    rule_input(rep, d, [dec, enc])
     rep.unit("2 functions: base64decode, base64encode")
     return rep
